@@ -20,7 +20,7 @@ pub fn meta() -> Meta {
     Meta {
         id: "C19",
         level: "fault_enumeration",
-        rule: "valid .skf files — small 64-bit (3 samples), small 128-bit, one-sample 64- and 128-bit files (their snappy chunk is stored uncompressed), a file of 180 samples x 200 highly compressible rows (more than 64 kB of CBOR, hence several snappy frames), thorough: a 6 kb genome file with incompressible k-mers, and the files an in-place delete and an in-place weed write — each subjected to EVERY truncation length 0..len-1 and EVERY single-bit flip of every byte; each damaged image goes through MergeSkaArray::<u64>::load then ::<u128>::load as in main: both must fail, or the accepted content (k, strand mode, names, k-mers, bases through the public API) must equal the original. CLI confirmation on the small file: every subcommand on every truncation (quick: stride 3) and on a stride of flips must exit non-zero exactly when the loader rejects, and a rejected delete/weed must leave the file byte-identical. Non-trivial = a damaged image (all are); distinct outcomes = rejected / accepted-identical.".into(),
+        rule: "valid .skf files — small 64-bit (3 samples), small 128-bit, one-sample 64- and 128-bit files (their snappy chunk is stored uncompressed), a file of 180 samples x 200 highly compressible rows (more than 64 kB of CBOR, hence several snappy frames), thorough: a 6 kb genome file with incompressible k-mers, and the files an in-place delete and an in-place weed write — each subjected to EVERY truncation length 0..len-1 and EVERY single-bit flip of every byte; each damaged image goes through MergeSkaArray::<u64>::load then ::<u128>::load as in main: both must fail, or the accepted content (k, strand mode, names, k-mers, bases through the public API) must equal the original. CLI confirmation on the small file: every subcommand on every truncation (quick: stride 3) and on a stride of flips must exit non-zero exactly when the loader rejects, and a rejected delete/weed must leave the file byte-identical; the same damaged images under a name without the .skf suffix, next to intact files named <name>.skf, <name>.skf.skf and <name>.bak, must be rejected as well (a neighbour is never read instead). Non-trivial = a damaged image (all are); distinct outcomes = rejected / accepted-identical.".into(),
         assumptions: vec!["exactly one fault per image (one truncation or one flipped bit)".into(), "flips that change only the stored per-k-mer counts, k_bits or version string are reported separately (not part of the statement's 'samples, k-mers or bases')".into()],
         exhaustive_when_uncapped: true,
     }
@@ -302,6 +302,26 @@ pub fn run(ctx: &Ctx, rep: &mut Report) {
                     }
                     if after != img {
                         rep.violate(format!("cli {name} touches rejected file {fault}"), format!("ska {name} modified a file it rejected ({fault})"), json!({"cli": name, "fault": fault}));
+                    }
+                }
+            }
+            // the damaged file under a name without the suffix, next to intact files with similar names
+            // (`y` beside `y.skf`, as after `weed run.skf -o run`): the neighbour must never be read instead
+            if !accepted {
+                std::fs::write(format!("{dir}/y"), &img).unwrap();
+                for sib in ["y.skf", "y.skf.skf", "y.bak"] {
+                    let _ = std::fs::copy(format!("{dir}/good.skf"), format!("{dir}/{sib}"));
+                }
+                let sib_cmds: Vec<(&str, Vec<&str>)> = vec![("nk", vec!["nk", "y"]), ("align", vec!["align", "y"]), ("merge-second", vec!["merge", "good.skf", "y", "-o", "m"]), ("weed", vec!["weed", "y", "w.fa", "--min-freq", "0", "-o", "copy.skf"]), ("distance", vec!["distance", "y"])];
+                for (name, args) in &sib_cmds {
+                    rep.evaluations += 1;
+                    rep.corner("cli_on_damaged_file_with_intact_neighbours");
+                    let o = cli::run(args, &dir, None);
+                    if o.code == 0 {
+                        rep.violate(format!("cli {name} on suffix-less {fault}"), format!("ska {name} exits 0 on the damaged file `y` ({fault}) that has intact neighbours y.skf / y.skf.skf / y.bak"), json!({"cli": name, "fault": fault, "neighbours": true}));
+                    }
+                    for outf in ["copy.skf", "m.skf"] {
+                        let _ = std::fs::remove_file(format!("{dir}/{outf}"));
                     }
                 }
             }
